@@ -224,6 +224,19 @@ static inline void vf_mask_long_payloads(const vf_doc *d, uint8_t *mask)
 /* a<b< 128-byte name: the third one needs a 2-byte length prefix */
 static const vf_name vf_names_abL[] = { { (const uint8_t *) "a", 1 }, { (const uint8_t *) "b", 1 }, { (const uint8_t *) VF_LNAME128, 128 } };
 
+/* a < b < 32768-byte name: the third one needs a 4-byte length prefix */
+static uint8_t vf_hname32k[32768];
+static vf_name vf_names_abH[3];
+static inline const vf_name *vf_names_abH_get(void)
+{
+    if (!vf_hname32k[0]) {
+        memset(vf_hname32k, 'h', sizeof vf_hname32k);
+        vf_names_abH[0] = (vf_name) { (const uint8_t *) "a", 1 }; vf_names_abH[1] = (vf_name) { (const uint8_t *) "b", 1 };
+        vf_names_abH[2] = (vf_name) { vf_hname32k, sizeof vf_hname32k };
+    }
+    return vf_names_abH;
+}
+
 /* standard name alphabet a<b<c */
 static const vf_name vf_names_abc[] = { { (const uint8_t *) "a", 1 }, { (const uint8_t *) "b", 1 }, { (const uint8_t *) "c", 1 } };
 
